@@ -33,6 +33,8 @@ func init() {
 	}
 }
 
+func refusedRemoveAll(o string) bool { return o == "err EACCES" || o == "err EPERM" }
+
 type wfExtra struct {
 	hist lib.History
 	dump string
@@ -197,6 +199,16 @@ func corrMemfs(seed uint64, tier string, replay []string, prop string, opts fsGe
 	if err != nil {
 		res.Mismatches = append(res.Mismatches, lib.Mismatch{Kind: "unproved", Class: "corr-impl memfs", What: "driver failure " + err.Error()})
 		return res
+	}
+	// a RemoveAll refused half-way: WHICH entry refuses first (EACCES: a directory that may not be written; EPERM: an entry
+	// under restricted deletion) depends on Go's map iteration order when both kinds are present: either answer agrees
+	for k, h := range hs {
+		for i, l := range h {
+			f := strings.Fields(l)
+			if len(f) > 2 && f[2] == "removeall" && i < len(impls[k]) && i < len(model[k]) && refusedRemoveAll(impls[k][i]) && refusedRemoveAll(model[k][i]) {
+				impls[k][i] = model[k][i]
+			}
+		}
 	}
 	seen := map[string]bool{}
 	if opts.views {
